@@ -6,6 +6,7 @@
 * user-supplied networks are uninterpreted functions of the inputs they actually receive.
 """
 import contextlib
+from fractions import Fraction as _F0
 from fractions import Fraction
 
 import numpy as np
@@ -192,3 +193,40 @@ class UFNet(nn.Module):
                     d = sc._dual_lin(pairs)
                 out[(r,) + idx] = S(val, d)
         return Sym(out)
+
+
+class NpProxy:
+    """stand-in for the `np` name inside a module: np.pi is a symbolic constant (3.14159 < pi < 3.1416) and
+    np.log / exp / sqrt / tanh accept symbolic tensors; everything else is numpy's."""
+
+    def __init__(self):
+        import numpy as _np
+
+        self._np = _np
+        R = sc.reg()
+        v = R.declare("pi", lo=Fraction(314159, 100000), hi=Fraction(31416, 10000))
+        R.pi = v
+        R.sign[v] = "+"
+        self.pi = Sym(_obj(S(v)))
+
+    def __getattr__(self, name):
+        return getattr(self._np, name)
+
+    def _f(self, name, x):
+        if isinstance(x, Sym):
+            return getattr(x, name)()
+        if isinstance(x, S):
+            return getattr(Sym(_obj(x)), name)()
+        return getattr(self._np, name)(x)
+
+    def log(self, x):
+        return self._f("log", x)
+
+    def exp(self, x):
+        return self._f("exp", x)
+
+    def sqrt(self, x):
+        return self._f("sqrt", x)
+
+    def tanh(self, x):
+        return self._f("tanh", x)
